@@ -70,6 +70,26 @@ func init() {
 	modules["entitybuild"] = func(c tr.M, rng *rand.Rand) tr.M {
 		in := tr.Map(c["in"])
 		b := &entity.Builder{}
+		if tr.Str(in["kind"]) == "nest" {
+			txt := func(k string) string {
+				s := ""
+				for _, cl := range tr.List(in[k]) {
+					s += runeClass(tr.Str(cl), rng)
+				}
+				return s
+			}
+			outer := b.Token()
+			_, _ = b.WriteString(txt("pre"))
+			inner := b.Token()
+			_, _ = b.WriteString(txt("inner"))
+			inner.Apply(b, entity.Italic())
+			_, _ = b.WriteString(txt("post"))
+			outer.Apply(b, entity.Bold())
+			if t := txt("tail"); t != "" {
+				b.Plain(t)
+			}
+			return entResult(b)
+		}
 		useStyling := rng.Intn(2) == 0
 		var opts []styling.StyledTextOption
 		for _, p := range tr.List(in["pieces"]) {
@@ -111,6 +131,12 @@ func init() {
 				return tr.M{"err": err.Error()}
 			}
 		}
+		return entResult(b)
+	}
+}
+
+func entResult(b *entity.Builder) tr.M {
+	{
 		msg, ents := b.Complete()
 		type e3 struct {
 			t        string
